@@ -378,4 +378,50 @@ example : (runIsa cntMachine cntSpec 24 (Bm.init cntMachine, envInit cntSpec 0 1
     envStreams (runRtl cntMachine cntSpec 24 (hwInit cntMachine, envInit cntSpec 0 1, false)).2.1 = [[1, 2, 3]] := by
   decide
 
+/-! a two-stage pipeline (counter → `i2rw r0 i0 ; j 0`) over one processor-to-processor bond: the
+    hypotheses of the projection theorems hold of it, and both worlds move the counter's values
+    into the consumer's register -/
+
+def pipeTopo : Topo := run Topo.empty [.addProcessor 0 1, .addProcessor 1 0, .addBond ⟨3, 0, 0⟩ ⟨2, 1, 0⟩]
+def pipeArch1 : Arch := { rsize := 8, r := 1, n := 1, m := 0, l := 0, o := 1, ops := ["i2rw", "j"] }
+def pipeMachine : Machine :=
+  { topo := pipeTopo, archs := [cntArch, pipeArch1],
+    progs := [[Bits.ofString01 "0000", Bits.ofString01 "1000", Bits.ofString01 "0100"],
+              [Bits.ofString01 "000", Bits.ofString01 "100"]] }
+
+example : MachineOk pipeMachine :=
+  ⟨Props.C10.wf_run _, rfl, rfl, fun p a h => by
+    match p with
+    | 0 => simp [pipeMachine] at h; subst h; rfl
+    | 1 => simp [pipeMachine] at h; subst h; rfl
+    | p + 2 => simp [pipeMachine] at h⟩
+
+example : ProcBond pipeMachine 0 0 0 :=
+  ⟨by decide, fun i hi => by
+    have : i = 0 := by
+      have h : consumerSlots pipeMachine.topo.links 0 = [0] := by decide
+      rw [h] at hi; simpa using hi
+    subst this
+    exact ⟨1, 0, by decide⟩⟩
+
+example : RtlProcBond pipeMachine 0 0 0 :=
+  ⟨by decide, fun b hb => by
+    have h : Bond.consumers pipeMachine.topo 0 = [⟨2, 1, 0⟩] := by decide
+    rw [h] at hb
+    simp only [List.mem_singleton] at hb
+    subst hb; rfl⟩
+
+example : HandshakeOnly pipeMachine := fun p a h => by
+  match p with
+  | 0 => simp [pipeMachine] at h; subst h; decide
+  | 1 => simp [pipeMachine] at h; subst h; decide
+  | p + 2 => simp [pipeMachine] at h
+
+set_option maxRecDepth 8000 in
+/-- after 14 ticks / clocks the consumer's r0 holds the third / second value of the counter -/
+example : (runIsa pipeMachine {} 14 (Bm.init pipeMachine, envInit {} 0 0, false)).map (fun r => r.1.procs.map (·.regs))
+      = some [[3, 0], [3, 0]] ∧
+    (runRtl pipeMachine {} 14 (hwInit pipeMachine, envInit {} 0 0, false)).1.procs.map (·.regs) = [[3, 0], [2, 0]] := by
+  decide
+
 end BMV.Props.C02
